@@ -346,6 +346,23 @@ def run_el(case):
         out['keys'].append(digest(['el', case['W']]))
         if out['sample'] is None and Ri is not None:
             out['sample'] = {'function': 'invert/normalize/binarize/threshold_absolute', 'n': n, 'W': Ws, 'thrs': case['thrs'], 'invert': frs_str(fmat(Ri))}
+    # the copy flag as the model states it (Thresh.withCopy): result content, argument content afterwards, aliasing bit
+    if n <= 8:
+        fl = lambda M: [None if x is None else float(x) for x in fmat(M)]
+        thr0 = case['thrs'][0]
+        for tag, f, args, extra in (('tabs', bct.threshold_absolute, (float(Fr(thr0)),), 'thr=%s' % rat_str(Fr(thr0))), ('binarize', bct.binarize, (), ''),
+                                    ('normalize', bct.normalize, (), ''), ('invert', bct.invert, (), ''),
+                                    ('wconv', bct.weight_conversion, ('lengths',), 'wcm=lengths'), ('wconv', bct.weight_conversion, ('normalize',), 'wcm=normalize')):
+            for cp in (True, False):
+                A = A0.copy()
+                st, R = call(f, A, *args, copy=cp, t=5, retry=10)
+                out['evals'] += 1
+                if st != 'ok':
+                    continue           # judged by copy_semantics above
+                nan_all = (tag == 'normalize' or extra == 'wcm=normalize') and not anynz
+                exp = ('callsem', None, None, None) if nan_all else ('callsem', fl(R), fl(A), int(R is A))
+                out['lean'].append(('callsem n=%d W=%s fn=%s copy=%d %s' % (n, Ws, tag, int(cp), extra), exp, 'copy-flag:' + f.__name__))
+                out['dist']['callsem_lines'] = out['dist'].get('callsem_lines', 0) + 1
     if n > 16:
         out['lean'] = []          # size axis: the interpreted driver is too slow for n >= 33 (Python predicates only)
         out['sample'] = None
@@ -1026,7 +1043,18 @@ def main():
             outs = [o for pt in parts for o in pt]
             nd = 0
             for (line, exp, fname), o in zip(items, outs[:len(lines)]):
-                if isinstance(exp, tuple):      # ('float', values): the exact model value converted to double must equal the NumPy double
+                if isinstance(exp, tuple) and exp[0] == 'callsem':
+                    # the observable outcome of one call: result content, content of the caller's array afterwards, `is`-identity
+                    try:
+                        d_ = kv(o)
+                        if exp[1] is None:
+                            good = o == 'R=nan'
+                        else:
+                            fl = lambda t: [None if x == 'nan' else float(Fr(x)) for x in t.split(',')]
+                            good = fl(d_['R']) == exp[1] and fl(d_['A']) == exp[2] and int(d_['alias']) == exp[3]
+                    except Exception:
+                        good = False
+                elif isinstance(exp, tuple):      # ('float', values): the exact model value converted to double must equal the NumPy double
                     try:
                         body = kv(o)['R']
                         got = [None if t == 'nan' else float(Fr(t)) for t in body.split(',')]
